@@ -62,6 +62,16 @@ func specMentions(spec *FuncSpec, prop string) bool {
 			return true
 		}
 	}
+	for _, a := range spec.AtCalls {
+		if hasProp(a.Clause.Props, prop) {
+			return true
+		}
+	}
+	for _, fl := range spec.Flows {
+		if hasProp(fl.Props, prop) {
+			return true
+		}
+	}
 	for _, l := range spec.Loops {
 		for _, c := range append(append([]*Clause(nil), l.Invariants...), l.Steps...) {
 			if hasProp(c.Props, prop) {
@@ -150,6 +160,9 @@ func allProps(spec *FuncSpec) []string {
 	}
 	for _, c := range spec.Ensures {
 		add(c.Props)
+	}
+	for _, a := range spec.AtCalls {
+		add(a.Clause.Props)
 	}
 	for _, l := range spec.Loops {
 		for _, c := range l.Invariants {
